@@ -15,6 +15,7 @@ import (
 	"math/big"
 	mrand "math/rand/v2"
 	"net"
+	"strings"
 	"time"
 
 	dtls "github.com/pion/dtls/v3"
@@ -74,6 +75,12 @@ func mintLeaf(ca *x509.Certificate, caKey crypto.Signer, key crypto.Signer, cn s
 		KeyUsage:    x509.KeyUsageDigitalSignature | x509.KeyUsageKeyEncipherment,
 		ExtKeyUsage: []x509.ExtKeyUsage{x509.ExtKeyUsageServerAuth, x509.ExtKeyUsageClientAuth},
 	}
+	switch { // leaves whose common name says so are good for one role only
+	case strings.HasPrefix(cn, "serverauth-only."):
+		tmpl.ExtKeyUsage = []x509.ExtKeyUsage{x509.ExtKeyUsageServerAuth}
+	case strings.HasPrefix(cn, "clientauth-only."):
+		tmpl.ExtKeyUsage = []x509.ExtKeyUsage{x509.ExtKeyUsageClientAuth}
+	}
 	der, err := x509.CreateCertificate(rand.Reader, tmpl, ca, key.Public(), caKey)
 	if err != nil {
 		return tls.Certificate{}, nil, err
@@ -131,6 +138,9 @@ func BuildCertPool() (*CertPool, error) {
 		{"srv-short", "p256", ServerName, []string{ServerName}, false, good0, time.Date(2000, 1, 1, 0, 10, 0, 0, time.UTC)},
 		// a certificate for the server's IP address (iPAddress SAN), and nothing else
 		{"srv-ip", "p256", "10.0.0.2", []string{"10.0.0.2"}, false, good0, good1},
+		// issued by the trusted CA, named correctly, but for the other role only
+		{"cli-srvonly", "p256", "serverauth-only.client.verif.test", []string{"client.verif.test"}, false, good0, good1},
+		{"srv-clionly", "p256", "clientauth-only.server.verif.test", []string{ServerName}, false, good0, good1},
 		{"cli-short", "p256", "client.verif.test", []string{"client.verif.test"}, false, good0, time.Date(2000, 1, 1, 0, 10, 0, 0, time.UTC)},
 	}
 	for i, sp := range specs {
